@@ -13,7 +13,7 @@ META = {
               "every read/write/open and the random source may fail under a symbolic fault schedule (hard error, EINTR/EAGAIN, short transfer, zero-length write)",
     "outside": "asconsum check mode: well-formed lines are decided for two concrete digit patterns (every digit, both cases) with a symbolic computed digest, plus to_hex_digit for every character, "
                "instead of all 64-digit strings (the parser's control flow is character dependent and symbolic digits made every loop bound symbolic); arbitrary lines of 1..100 symbolic characters are decided for "
-               "memory safety and failure status; check files with more than one line; the asconcrypt encrypt->decrypt round trip in ONE query (each direction is decided against the same stubs); "
+               "memory safety and failure status; check files with more than one line; "
                "main() with -k / prompting / several input files; whole-process behaviour: real getopt, terminal prompting, signals; crash of the writer other than as a truncated input; cryptographic tamper detection (decided in C02); real BUFSIZ (8192)",
     "assumptions": ["POSIX I/O modelled by harness/C19 stubs (read/write may return -1 with EINTR/EAGAIN/EIO or a short count)", "crypto replaced by tracking stubs in the fault/format queries",
                     "snprintf/printf/fprintf/perror/getopt/getpass contract stubs (getopt: short options, one per argument)",
@@ -23,7 +23,7 @@ META = {
 }
 MANIFEST = {
     "text": "Bounded model checking of the tool code (real sources, included into the harness) against a modelled file system: under every fault schedule a failed read, write, open or random source "
-            "makes the operation report failure and delete its output; malformed or truncated inputs are rejected; a successful run wrote the complete file; asconsum prints the digest lines and "
+            "makes the operation report failure and delete its output; malformed or truncated inputs are rejected; a successful run wrote the complete file; decrypt_file(encrypt_file(x)) == x for every content and password; asconsum prints the digest lines and "
             "reports OK exactly for matching digests.",
     "note": "Unit level with a modelled environment, plus main() of asconcrypt for the -p path (exit status, whole password reaches the KDF, no output left on failure); the real getopt and prompting are outside. Tag strength is C02.",
     "technique": "bounded model checking with CBMC/cadical of the real tool sources against a modelled file system and a concrete-per-query fault schedule",
@@ -72,6 +72,8 @@ def queries(tier):
             if f[0] == 3 or (tier == "quick" and f[1] > 3):
                 continue
             qs.append(q(2, n, fault=f))
+    for n in ([0, 1, 31, 32, 33, 65] if tier == "quick" else SIZES_T):
+        qs.append(q(3, n))
     for nl in ([1, 2, 5, 6, 7, 12, 31, 32, 33, 37, 38, 39, 45] if tier == "quick" else list(range(1, 48))):
         qs.append(q(4, namelen=nl))
     for n in [0, 1, 5, 40]:
